@@ -7,7 +7,7 @@
 (* domain, the specification enumerates the same domain and compares the   *)
 (* whole result table.                                                     *)
 (***************************************************************************)
-EXTENDS Spake2Core, Json, IOUtils
+EXTENDS Spake2Core, Primes, Json, IOUtils
 
 PT == JsonDeserialize(IOEnv.TRACE_FILE)
 PHNum(h) == NFromBytes(HexToBytes(h))
@@ -166,6 +166,107 @@ VEdOp(ev) ==
      ELSE IF EdCaseOK(c, ev.fn, r1, r2, HExt(ev.out)) THEN PGood
      ELSE PBad("C12: " \o ev.fn \o " does not compute the Edwards sum (" \o ev.note \o ")", "")
 
+(* ---- C11: the sampler ----------------------------------------------------- *)
+PEntLog(ev) == [i \in 1..Len(ev.ent) |-> [req |-> ev.ent[i].req, got |-> HexToBytes(ev.ent[i].got)]]
+VRR(ev) ==
+  LET r == Randrange(PHNum(ev.start), PHNum(ev.stop), PEntLog(ev))
+  IN IF ~r.ok THEN PBad("C11: unbiased_randrange: " \o r.why, "")
+     ELSE IF ev.out.t # "val" \/ PHNum(ev.out.v) # r.v THEN PBad("C11: unbiased_randrange result", BytesToHex(NToBytes(r.v, Len(HexToBytes(ev.stop)))))
+     ELSE PGood
+(* every first draw r in [lo,hi) for a small range [start, start+width); a     *)
+(* rejected first draw is followed by an all-zero draw                          *)
+VRRTable(ev) ==
+  LET w   == NLit(ev.width)
+      case(r) ==
+        LET draw == NToBytes(NLit(r), ev.nb)
+            acc  == NLt(Candidate(draw, w), w)
+            log  == IF acc THEN << [req |-> ev.nb, got |-> draw] >>
+                    ELSE << [req |-> ev.nb, got |-> draw], [req |-> ev.nb, got |-> Zeros(ev.nb)] >>
+            rr   == Randrange(NLit(ev.start), NLit(ev.start + ev.width), log)
+            k    == r - ev.lo + 1
+        IN rr.ok /\ NToInt(rr.v) = ev.res[k] /\ ev.nreq[k] = Len(log)
+                 /\ ev.res[k] >= ev.start /\ ev.res[k] < ev.start + ev.width
+      bad == {r \in ev.lo..(ev.hi - 1) : ~case(r)}
+  IN IF Len(ev.res) # ev.hi - ev.lo THEN PBad("harness: table size", "")
+     ELSE IF ev.nb # SizeBytes(w) THEN PBad("C11: request size is not size_bytes(width)", ToString(SizeBytes(w)))
+     ELSE IF bad = {} THEN PGood
+     ELSE PBad("C11: unbiased_randrange(" \o ToString(ev.start) \o ", " \o ToString(ev.start + ev.width)
+               \o ") on first draw " \o ToString(FirstBad(bad)), "")
+
+(* ---- C14: derivations ------------------------------------------------------ *)
+VPw2s(ev) ==
+  LET g == GroupTable[ev.grp]
+      w == GPwScalar(g, HexToBytes(ev.pw))
+  IN IF ev.out.t = "val" /\ PHNum(ev.out.v) = w /\ NLt(w, GOrder(g)) THEN PGood
+     ELSE PBad("C14: password_to_scalar", BytesToHex(NToBytes(w, GSSize(g))))
+VArb(ev) ==
+  LET g    == GroupTable[ev.grp]
+      seed == HexToBytes(ev.seed)
+      degenerate == ~IsEd(g) /\ LET h == IG_ArbH(g, seed) IN NIsZero(h) \/ IG_ArbFromH(g, h) = NLit(1)
+      e    == GArbElem(g, seed)
+  IN IF degenerate THEN PBad("F7: arbitrary_element on a degenerate seed (HKDF output 0 mod p or in the kernel of the cofactor map)", "")
+     ELSE IF ev.out.t # "elem" THEN PBad("C14: arbitrary_element raised", BytesToHex(GEnc(g, e)))
+     ELSE IF HexToBytes(ev.out.enc) # GEnc(g, e) THEN PBad("C14: arbitrary_element is not the published construction", BytesToHex(GEnc(g, e)))
+     ELSE IF ~(GIsMember(g, e) /\ e # GIdentity(g)) THEN PBad("C14: the published construction leaves the subgroup", "")
+     ELSE IF ~ClsOK(g, e, ev.out.cls) THEN PBad("C14: arbitrary_element result type", "")
+     ELSE PGood
+
+(* ---- C15: codecs ------------------------------------------------------------ *)
+VN2BTable(ev) ==
+  LET mv  == NLit(ev.maxval)
+      bad == {n \in 0..ev.maxval :
+                LET r == NumberToBytes(NLit(n), mv)
+                IN ~(r.ok /\ HexToBytes(ev.outs[n + 1]) = r.v /\ Len(r.v) = SizeBytes(mv) /\ ev.back[n + 1] = n)}
+  IN IF Len(ev.outs) # ev.maxval + 1 THEN PBad("harness: table size", "")
+     ELSE IF bad # {} THEN PBad("C15: number_to_bytes/bytes_to_number(" \o ToString(FirstBad(bad)) \o ", " \o ToString(ev.maxval) \o ")", "")
+     ELSE IF ev.over = "" THEN PBad("C15: number_to_bytes(maxval+1, maxval) did not raise", "")
+     ELSE IF ev.size_bytes # SizeBytes(mv) \/ ev.size_bits # SizeBits(mv) THEN PBad("C15: size_bits/size_bytes", "")
+     ELSE PGood
+VN2B(ev) ==
+  LET r == NumberToBytes(PHNum(ev.num), PHNum(ev.maxval))
+  IN IF r.ok # (ev.out.t = "val") THEN PBad("C15: number_to_bytes raises iff num > maxval", "")
+     ELSE IF r.ok /\ (HexToBytes(ev.out.v) # r.v \/ PHNum(ev.back) # PHNum(ev.num)) THEN PBad("C15: number_to_bytes / bytes_to_number", BytesToHex(r.v))
+     ELSE PGood
+VSCodec(ev) ==
+  LET g == GroupTable[ev.grp]
+      k == PHNum(ev.k)
+      e == GScalarEnc(g, k)
+  IN IF ~NLt(k, GOrder(g)) THEN PBad("harness: scalar out of range", "")
+     ELSE IF HexToBytes(ev.enc) # e.v \/ Len(e.v) # GSSize(g) THEN PBad("C15: scalar_to_bytes", BytesToHex(e.v))
+     ELSE IF PHNum(ev.dec) # k THEN PBad("C15: bytes_to_scalar(scalar_to_bytes(k)) # k", "")
+     ELSE PGood
+
+(* ---- C17: transcript hash ---------------------------------------------------- *)
+VFinalize(ev) ==
+  LET k == Finalize(HexToBytes(ev.idA), HexToBytes(ev.idB), HexToBytes(ev.X), HexToBytes(ev.Y), HexToBytes(ev.K), HexToBytes(ev.pw))
+  IN IF HexToBytes(ev.out) = k THEN PGood ELSE PBad("C17: finalize_SPAKE2", BytesToHex(k))
+VFinalizeSym(ev) ==
+  LET k == FinalizeSym(HexToBytes(ev.idS), HexToBytes(ev.m1), HexToBytes(ev.m2), HexToBytes(ev.K), HexToBytes(ev.pw))
+  IN IF HexToBytes(ev.out) # k THEN PBad("C17: finalize_SPAKE2_symmetric", BytesToHex(k))
+     ELSE IF HexToBytes(ev.swapped) # k THEN PBad("C17: finalize_SPAKE2_symmetric is not symmetric in the messages", BytesToHex(k))
+     ELSE PGood
+
+(* ---- C18: the shipped constants ---------------------------------------------- *)
+Pub == JsonDeserialize("published.json")
+VParamsSound(ev) ==
+  LET r  == ev.live
+      g  == PGroupOf(r)
+      pg == PGroupOf(Pub.groups[ev.group])
+      ps == [grp |-> g, M |-> GArbElem(g, HexToBytes(ev.seeds.M)), N |-> GArbElem(g, HexToBytes(ev.seeds.N)),
+             S |-> GArbElem(g, HexToBytes(ev.seeds.S))]
+  IN IF g # pg THEN PBad("C18: group constants differ from the published ones", "")
+     ELSE IF ~(IF IsEd(g) THEN EdParamsSound(g) ELSE IntParamsSound(g)) THEN PBad("C18: group is not a sound prime-order group", "")
+     ELSE IF ev.seeds # Pub.seeds THEN PBad("C18: M/N/S seeds differ from the released ones", "")
+     ELSE IF ~ElementsSound(ps) THEN PBad("C18: M, N, S are not pairwise distinct non-identity subgroup members", "")
+     ELSE IF HexToBytes(ev.M) # GEnc(g, ps.M) \/ HexToBytes(ev.N) # GEnc(g, ps.N) \/ HexToBytes(ev.S) # GEnc(g, ps.S)
+          THEN PBad("C18/C14: live M, N, S are not the released constants", "")
+     ELSE IF HexToBytes(ev.base) # GEnc(g, GBase(g)) THEN PBad("C18: live base point / generator", "")
+     ELSE IF ev.default # "ParamsEd25519" THEN PBad("C18: Ed25519 is not the default parameter set", "ParamsEd25519")
+     ELSE PGood
+VCtorTable(ev) ==
+  LET bad == {g \in 1..(ev.p - 1) : (ev.acc[g] = 1) # IG_ConstructorAccepts(NLit(ev.p), NLit(ev.q), NLit(g))}
+  IN IF bad = {} THEN PGood ELSE PBad("C18: IntegerGroup constructor accepts/rejects g = " \o ToString(FirstBad(bad)), "")
+
 PureVerdict(ev) ==
   CASE ev.op = "g_dec_table" -> VDecTable(ev)
     [] ev.op = "g_dec"       -> VDec(ev)
@@ -174,6 +275,17 @@ PureVerdict(ev) ==
     [] ev.op = "g_eq_row"    -> VEqRow(ev)
     [] ev.op = "g_neg_row"   -> VNegRow(ev)
     [] ev.op = "g_op"        -> VOp(ev)
+    [] ev.op = "rr"          -> VRR(ev)
+    [] ev.op = "rr_table"    -> VRRTable(ev)
+    [] ev.op = "pw2s"        -> VPw2s(ev)
+    [] ev.op = "arb"         -> VArb(ev)
+    [] ev.op = "n2b_table"   -> VN2BTable(ev)
+    [] ev.op = "n2b"         -> VN2B(ev)
+    [] ev.op = "s_codec"     -> VSCodec(ev)
+    [] ev.op = "finalize"    -> VFinalize(ev)
+    [] ev.op = "finalize_sym" -> VFinalizeSym(ev)
+    [] ev.op = "params_sound" -> VParamsSound(ev)
+    [] ev.op = "ctor_table"  -> VCtorTable(ev)
     [] ev.op = "ed_tab"      -> VEdTab(ev)
     [] ev.op = "ed_op"       -> VEdOp(ev)
     [] OTHER                 -> PBad("harness: unknown event " \o ev.op, "")
